@@ -1234,6 +1234,17 @@ def _ctor_arg_raw(ck, call, init_qual, name):
     """The argument expression (as written) a constructor call binds to parameter `name`, keyword or positional."""
     v = A.kwarg(call, name)
     if v is None:
+        # `Ctor(**{"name": value, ...})` / `Ctor(**dict(name=value, ...))`: keyword arguments written as a mapping display
+        for k in call.keywords:
+            if k.arg is not None:
+                continue
+            if isinstance(k.value, ast.Dict) and all(kk is not None and A.const_str(kk) is not None for kk in k.value.keys):
+                for kk, vv in zip(k.value.keys, k.value.values):
+                    if A.const_str(kk) == name:
+                        v = vv
+            elif isinstance(k.value, ast.Call) and isinstance(k.value.func, ast.Name) and k.value.func.id == "dict" and not k.value.args:
+                v = A.kwarg(k.value, name) or v
+    if v is None:
         init = ck.repo.try_func(init_qual)
         if init is not None:
             params = [a.arg for a in init.node.args.posonlyargs + init.node.args.args][1:]
@@ -1257,7 +1268,37 @@ def _display_elements(e):
             return []
         if len(e.args) == 1 and isinstance(e.args[0], (ast.Set, ast.List, ast.Tuple)) and not any(isinstance(x, ast.Starred) for x in e.args[0].elts):
             return list(e.args[0].elts)
+        if len(e.args) == 1 and isinstance(e.args[0], (ast.GeneratorExp, ast.ListComp, ast.SetComp)):
+            return _comprehension_elements(e.args[0])
+    if isinstance(e, (ast.SetComp, ast.ListComp)):
+        return _comprehension_elements(e)
     return None
+
+
+def _comprehension_elements(e):
+    """`{f(x) for x in (a, b)}`: one unconditional generator over a display -> [f(a), f(b)]"""
+    import copy
+    if len(e.generators) != 1:
+        return None
+    gen = e.generators[0]
+    if gen.ifs or gen.is_async or not isinstance(gen.target, ast.Name) or not isinstance(gen.iter, (ast.Tuple, ast.List, ast.Set)) \
+            or any(isinstance(x, ast.Starred) for x in gen.iter.elts):
+        return None
+    var = gen.target.id
+    if any(isinstance(x, (ast.Lambda, ast.ListComp, ast.SetComp, ast.GeneratorExp, ast.DictComp, ast.NamedExpr)) for x in ast.walk(e.elt)):
+        return None
+
+    class S(ast.NodeTransformer):
+        def __init__(self, by):
+            self.by = by
+
+        def visit_Name(self, n):
+            return copy.deepcopy(self.by) if n.id == var and isinstance(n.ctx, ast.Load) else n
+    out = []
+    for x in gen.iter.elts:
+        y = S(x).visit(copy.deepcopy(e.elt))
+        out.append(x if isinstance(e.elt, ast.Name) and e.elt.id == var else ast.fix_missing_locations(ast.copy_location(y, x)))
+    return out
 
 
 class Built:
@@ -1338,7 +1379,9 @@ def _r4(ck, R4):
     inv = Built(sfi, _ctor_arg_raw(ck, im, IMI, "invocations"), iat, "self.memento.invocation_metadata.invocations")
     res = Built(sfi, _ctor_arg_raw(ck, im, IMI, "resources"), iat, "self.memento.invocation_metadata.resources")
     shared = _mutable_default_reaches_record(ck, "call_stack")
-    ok5 = inv.texts() == [] and res.texts() == [] and isinstance(inv.leaf, ast.List) and isinstance(res.leaf, ast.List) and inv.leaf is not res.leaf and shared is None
+    def fresh_list(e):
+        return isinstance(e, ast.List) or (isinstance(e, ast.Call) and isinstance(e.func, ast.Name) and e.func.id == "list" and not e.args and not e.keywords)
+    ok5 = inv.texts() == [] and res.texts() == [] and fresh_list(inv.leaf) and fresh_list(res.leaf) and inv.leaf is not res.leaf and shared is None
     ck.ob(R4, sfi.key(None, "fresh-lists"), ok5, "invocations and resources start as fresh empty lists" if ok5 else
           ("a new frame does not start with fresh empty invocation/resource lists" if shared is None else
            "the frame's record is built from parameter `%s` of %s, whose default value is one list shared by every frame" % (shared[1], shared[0].qual)), sfi.where(im))
